@@ -312,6 +312,20 @@ JudgeLifetime(e) ==
                   \o (IF e.res = "ok" THEN CmpBytes("lifetime_value", BvToBytes(Lifetime(k.ctr, hs)), e.val) ELSE <<>>)
 
 (* ======================================================================= *)
+(* SigningKey::from_bytes ("reload from storage")                          *)
+(* ======================================================================= *)
+(* a well-formed key of a parameter list within the build limits loads, unchanged (C14: such keys  *)
+(* remain fully usable; C09: a reloaded key continues like the one in memory); for anything else   *)
+(* an error or an object holding the same bytes are both fine (C11), a panic is not                *)
+JudgeLoad(e) ==
+    LET key == B(e.key)
+        k   == ParseKey(e.alg, key)
+        good == k.ok /\ WithinLimits(k.params) /\ Representable(N(e.alg), k.params)
+    IN  NoPanic(e)
+        \o (IF good THEN CmpVal("load_result", "ok", e.res) ELSE <<>>)
+        \o (IF e.res = "ok" THEN CmpBytes("load_value", key, e.mem_after) ELSE <<>>)
+
+(* ======================================================================= *)
 (* hooks                                                                   *)
 (* ======================================================================= *)
 JudgeHook(e) ==
@@ -409,7 +423,8 @@ Judge(e, c) ==
       [] e.ev = "lifetime" -> [v |-> JudgeLifetime(e), c |-> c]
       [] e.ev = "hook"     -> [v |-> JudgeHook(e), c |-> c]
       [] e.ev = "info"     -> [v |-> JudgeInfo(e), c |-> c]
-      [] e.ev \in {"reset", "load", "persist"} -> [v |-> <<>>, c |-> c]
+      [] e.ev = "load"     -> [v |-> JudgeLoad(e), c |-> c]
+      [] e.ev \in {"reset", "persist", "skip"} -> [v |-> <<>>, c |-> c]
       [] e.ev = "hang"     -> [v |-> <<Verdict("hang", "termination", "hang")>>, c |-> c]
       [] OTHER             -> [v |-> <<Verdict("unknown_event", "", e.ev)>>, c |-> c]
 
